@@ -139,7 +139,7 @@ def nnls_spec():
         return st.new_array((a.shape[0],), "dot", DOT(st.heap[a.loc], st.heap[x.loc]))
 
     def ensures(old, new, res):
-        if not (isinstance(res, tuple) and len(res) == 2 and all(isinstance(r, wp.Arr) for r in res)):
+        if not (isinstance(res, tuple) and len(res) == 2 and isinstance(res[0], wp.Arr) and isinstance(res[1], (wp.Arr, wp.LazyArr))):
             return [("returns_clp_and_residual", z3.BoolVal(False))]
         clp, residual = res
         A, b = old.term("matrix"), old.term("data")
